@@ -133,6 +133,21 @@ func (r *Relay) FreezeReads(id string, on bool) {
 	r.mu.Unlock()
 }
 
+// Inject appends a message to a mailbox as if some writer had sent it (a party
+// in control of the relay can do that). It reports whether the box exists.
+func (r *Relay) Inject(id string, msg []byte) bool {
+	r.mu.Lock()
+	defer r.mu.Unlock()
+	b, ok := r.boxes[id]
+	if !ok || b.deleted {
+		return false
+	}
+	b.q = append(b.q, qmsg{b: append([]byte{}, msg...), at: time.Now()})
+	r.logf("inject", id, "")
+	kick(b.wake)
+	return true
+}
+
 // Boxes returns the ids of the existing boxes.
 func (r *Relay) Boxes() []string {
 	r.mu.Lock()
